@@ -97,6 +97,7 @@ def _single_faults(tbl):
         ("qartod", "aggregate", {}),
         ("qartod", "attenuated_signal_test", {"suspect_threshold": 1, "fail_threshold": 0, "check_type": "iqr"}),
         ("axds", "valid_range_test", {}),
+        ("qartod", "climatology_test", {"config": [{"tspan": ["2019-01-01", "2022-01-01"], "vspan": [-8, 8]}, {"tspan": [1, 6], "vspan": [0, 1], "period": "fortnight"}]}),
     ):
         faults.append({"module": module, "test": test, "params": params, "role": "F3"})
     faults.append({"module": "qartod", "test": "location_test", "params": {}, "role": "F4"})
@@ -121,7 +122,7 @@ def _case(name, tbl, ctxs, fe):
         "frontends": [fe],
         "schedule": [0],
         "abandon": [],
-        "reruns": [],
+        "reruns": [fe],   # every case is run twice on the same stream and Config objects
         "share_config": False,
     }
 
@@ -160,21 +161,7 @@ def enumerate_cases():
                         ctxs = copy.deepcopy(contexts)
                         ctxs[ci]["entries"].insert(pos, e)
                         for fe in STREAM_FES:
-                            cases.append(
-                                {
-                                    "format": 1,
-                                    "property": PROP,
-                                    "case": f"{bname}/{f['role']}/{e['module']}.{e['test']}/ctx{ci}/{sid}/pos{pos}/{fe}",
-                                    "env": {"dirty": {"pattern": "flag", "byte": 4}},
-                                    "table": tbl,
-                                    "config": {"contexts": ctxs, "window_form": "iso", "carrier": "dict", "layout": "contexts"},
-                                    "frontends": [fe],
-                                    "schedule": [0],
-                                    "abandon": [],
-                                    "reruns": [],
-                                    "share_config": False,
-                                },
-                            )
+                            cases.append(_case(f"{bname}/{f['role']}/{e['module']}.{e['test']}/ctx{ci}/{sid}/pos{pos}/{fe}", tbl, ctxs, fe))
     return cases
 
 
